@@ -323,7 +323,12 @@ fn constant_fun_result(
                         None,
                     )),
                 };
-                let optimizer = if let Ok(res) = get_optimizer(&call_spec.loc, opts.clone()) {
+                // This compilation sees every helper again, so it must not
+                // fold constant calls in their bodies itself: a helper that
+                // contains one would send us back here without end.
+                let unopt_opts = opts.set_optimize(false);
+                let optimizer = if let Ok(res) = get_optimizer(&call_spec.loc, unopt_opts.clone())
+                {
                     res
                 } else {
                     return None;
@@ -333,7 +338,7 @@ fn constant_fun_result(
                 let mut wrapper =
                     CompileContextWrapper::new(allocator, runner.clone(), &mut symbols, optimizer);
 
-                if let Ok(code) = codegen(&mut wrapper.context, opts.clone(), &to_compile) {
+                if let Ok(code) = codegen(&mut wrapper.context, unopt_opts, &to_compile) {
                     code
                 } else {
                     return None;
